@@ -1,6 +1,6 @@
 (* C06 — Ellipsis is a true wildcard.  Property theorems only; proofs are in Proofs/. *)
 From Coq Require Import String.
-From XD Require Import Model.Base Model.Lit Model.Ellipsis Spec.EllipsisSpec Proofs.EllipsisProofs.
+From XD Require Import Model.Base Model.Lit Model.Ellipsis Model.Checker Spec.EllipsisSpec Proofs.BaseFacts Proofs.EllipsisProofs.
 
 (* the matcher of checker._ellipsis_match accepts exactly the declarative relation *)
 Theorem C06_ellipsis_iff :
@@ -21,6 +21,19 @@ Theorem C06_split_shape :
   exists w0 mids wl, split_ell want = w0 :: mids ++ [wl].
 Proof. exact split_ell_shape. Qed.
 Print Assumptions C06_split_shape.
+
+(* with ELLIPSIS disabled the comparison of the normalised texts is plain equality:
+   '...' has no special meaning *)
+Theorem C06_disabled_is_plain :
+  forall fl got want, ELLIPSIS fl = false -> check_match fl got want = eqb_str got want.
+Proof. intros fl got want H. unfold check_match. rewrite H. destruct (eqb_str got want); reflexivity. Qed.
+Print Assumptions C06_disabled_is_plain.
+
+(* without a marker in the want, enabling ELLIPSIS changes nothing *)
+Theorem C06_no_marker_is_plain :
+  forall got want, contains marker want = false -> ellipsis_match got want = eqb_str want got.
+Proof. intros got want H. unfold ellipsis_match. rewrite H. reflexivity. Qed.
+Print Assumptions C06_no_marker_is_plain.
 
 (* non-vacuity: the relation holds / fails on the docstring's own examples *)
 Example C06_ex_pos : EllMatch (S "best=3.4s ave=4.5s") (S "best=...s ave=...s").
